@@ -11,6 +11,9 @@ Input : [flavour, workers, mkRaise, intr, mfaults, tb, schedule]
         mfaults = indices of main's own calls on the caller's result that raise (stream: status; suite: stop)
         tb      = number of chunks of a broken-runner traceback, measured on the implementation (stream)
         schedule = list of thread ids: 0 = the thread calling run(), w+1 = worker w
+        an optional 8th component = realisation hints, which do not change what the model predicts (atoms): routes (worker 0 gets
+        the route code None, worker 1 the route code '', stream flavour), emptyId (test 0 has the id ''), wrap (suite flavour:
+        wrap_result wraps each forwarder in a pass-through TestResultDecorator)
 Trace : [log, sink, result, spawned, joined, live, runs, flags, died, finished]      (TTV/Drv/C13.lean)
 The real suites run with testtools.testsuite.Queue / .threading replaced by the scheduler's doubles.
 """
@@ -39,8 +42,9 @@ class WorkerBoom(Exception):
 class Worker:
     """a hashable TestCase-like sub-suite: runs its placeholder tests, then raises if `boom`"""
 
-    def __init__(self, n, tests, boom, stream=False):
+    def __init__(self, n, tests, boom, stream=False, empty_id=False):
         self.n, self.tests, self.boom, self.runs, self.result, self.stream = n, tests, boom, 0, None, stream
+        self.empty_id = empty_id
 
     def run(self, result):
         from testtools import PlaceHolder
@@ -49,16 +53,16 @@ class Worker:
         for j, t in enumerate(self.tests):
             if len(t) == 3 and self.stream:
                 for ev in t[2]:
-                    result.status(**native_kwargs(ev))      # a test that speaks the stream protocol itself
+                    result.status(**native_kwargs(ev, self.empty_id))      # a test that speaks the stream protocol itself
             else:
-                PlaceHolder('t%d' % j, outcome=ADD[t[0]], tags=set(t[1])).run(result)
+                PlaceHolder('' if (j == 0 and self.empty_id) else 't%d' % j, outcome=ADD[t[0]], tags=set(t[1])).run(result)
         if self.boom:
             raise WorkerBoom('runner broke')
 
 
-def native_kwargs(ev):
+def native_kwargs(ev, empty_id=False):
     i, kind, tags, ts = ev
-    kw = {'test_id': 't%d' % i}
+    kw = {'test_id': '' if (i == 0 and empty_id) else 't%d' % i}
     if kind[0] == 'st':
         kw['test_status'] = kind[1]
     else:
@@ -84,8 +88,9 @@ def canon_instant(ts):
 class Sink:
     """the caller's StreamResult (stream flavour): status() is a yield point of the calling thread"""
 
-    def __init__(self, sch, faults):
+    def __init__(self, sch, faults, routes=None):
         self.s, self.faults, self.events, self.n = sch, set(faults), [], 0
+        self.routes = routes or {}          # route code -> worker, for the codes that are not str(worker)
 
     def status(self, test_id=None, test_status=None, test_tags=None, runnable=True, file_name=None, file_bytes=None,
                eof=False, mime_type=None, route_code=None, timestamp=None):
@@ -97,12 +102,17 @@ class Sink:
             tid = 'broken'
         elif test_id is not None and test_id[:1] == 't' and test_id[1:].isdigit():
             tid = int(test_id[1:])
+        elif test_id == '':
+            tid = 0
         else:
             tid = 99999
-        try:
-            w = int(route_code)
-        except (TypeError, ValueError):
-            w = 99999
+        if route_code in self.routes:
+            w = self.routes[route_code]
+        else:
+            try:
+                w = int(route_code)
+            except (TypeError, ValueError):
+                w = 99999
         kind = ['file', bool(eof)] if file_name is not None else ['st', test_status if test_status is not None else 'nostatus']
         tags = None if test_tags is None else some(sorted(test_tags))
         self.events.append([[w, tid, kind, tags, canon_instant(timestamp)], isinstance(timestamp, datetime.datetime), r])
@@ -132,7 +142,8 @@ class C13(Prop):
     rule = ('ConcurrentTestSuite / ConcurrentStreamTestSuite (half each) over 0-4 hashable workers running 0-3 tests: PlaceHolder tests of arbitrary outcome '
             'with tags, and - stream flavour, 40 % of the tests - native stream emitters whose run(result) calls result.status() for 0-3 scripted events '
             '(test id, any status / file chunk with or without eof, test_tags absent / empty / given, timestamp keyword omitted / None / a given instant); '
-            'workers raising from run(), worker-side faults of the caller\'s TestResult (suite), make_tests raising after k sub-suites, '
+            'workers with no test / that emit nothing; realisation hints that leave the prediction unchanged: route codes None and \'\', the empty test id, a pass-through '
+            'wrap_result; workers raising from run(), worker-side faults of the caller\'s TestResult (suite), make_tests raising after k sub-suites, '
             'an interrupt at main\'s m-th queue.get(), the caller\'s result raising at main\'s j-th call (stream: status; suite: stop in the abort path); '
             'schedules: quick = every schedule with <= 2 pre-emptions of 6 small base configurations + random / bursty / few-pre-emption schedules of random '
             'configurations; thorough adds every schedule with <= 2 pre-emptions for 2 workers x 2 tests, <= 1 for 3 workers, and every single fault position / interrupt position / make_tests failure position (<= 1 pre-emption). non-trivial = at least 2 workers started; '
@@ -142,7 +153,10 @@ class C13(Prop):
                    'a KeyboardInterrupt delivered to the thread calling run() is modelled as an exception at a queue.get()',
                    'sub-suites are hashable, distinct TestCase-like objects; a run() that raises raises an Exception subclass (a BaseException is deliberately not turned into broken-runner by the code)',
                    'the number of chunks of a broken-runner traceback is measured on the implementation and given to the model (stream flavour)',
-                   'per-worker results are the default ones (no wrap_result)',
+                   'per-worker results are the default ones or (hint wrap) a pass-through TestResultDecorator; the caller\'s result raises Exception subclasses only '
+                   '(a BaseException from status()/stop() is outside the documented fault domain of C13; C12 mixes both kinds); sub-suites are distinct objects and API test ids '
+                   'are positional (repeated ids are covered by native emitters only) - yielding the same sub-suite object twice is outside the domain (see report: ConcurrentTestSuite '
+                   'then returns while a worker still runs)',
                    'translator ties (harness/suiteskel.py + harness/tfrskel.py): the try / except Exception / finally structure of both _run_test methods and the '
                    'skeletons of ThreadsafeForwardingResult are re-read from the source on every run (theorems C13_src_run_test_suite / _stream, C12_src_*); trusted: '
                    'the interpreters\' reading of sequencing / try-except / try-finally and that each recognised statement is what its name says; run() itself (the '
@@ -187,19 +201,21 @@ class C13(Prop):
     def execute(self, inp):
         import testtools
         import testtools.testsuite as ts
-        flavour, wspecs, mk, intr, mfaults, tb, schedule = inp
+        flavour, wspecs, mk, intr, mfaults, tb, schedule = inp[:7]
+        hints = inp[7] if len(inp) > 7 else []
+        route = lambda n: ({0: None, 1: ''}.get(n, str(n)) if 'routes' in hints else str(n))
         mk = None if mk is None else mk[1]
         intr = None if intr is None else intr[1]
         sch = S.Scheduler(schedule)
         log = []
         sem = S.SchedSemaphore(sch, log)
-        workers = [Worker(n, w[0], w[1], flavour == 'stream') for n, w in enumerate(wspecs)]
+        workers = [Worker(n, w[0], w[1], flavour == 'stream', 'emptyId' in hints) for n, w in enumerate(wspecs)]
         faults = {0: set(mfaults)}
         for n, w in enumerate(wspecs):
             faults[n + 1] = set(w[2])
         target = Target(sch, log, faults)
         target.mixed_faults = False
-        sink = Sink(sch, mfaults)
+        sink = Sink(sch, mfaults, {None: 0, '': 1} if 'routes' in hints else None)
         st = {'gets': 0, 'spawned': [], 'joined': [], 'result': None, 'live': []}
 
         def on_get(q):
@@ -227,14 +243,18 @@ class C13(Prop):
             for n, w in enumerate(workers):
                 if mk is not None and n >= mk:
                     raise MakeTestsError('make_tests broke')
-                yield w if flavour == 'suite' else (w, str(n))
+                yield w if flavour == 'suite' else (w, route(n))
             if mk is not None:
                 raise MakeTestsError('make_tests broke')
 
         def main():
             try:
                 if flavour == 'suite':
-                    testtools.ConcurrentTestSuite(unittest.TestSuite(), make_tests).run(target)
+                    if 'wrap' in hints:
+                        from testtools.testresult.real import TestResultDecorator
+                        testtools.ConcurrentTestSuite(unittest.TestSuite(), make_tests, wrap_result=lambda r, i: TestResultDecorator(r)).run(target)
+                    else:
+                        testtools.ConcurrentTestSuite(unittest.TestSuite(), make_tests).run(target)
                 else:
                     testtools.ConcurrentStreamTestSuite(make_tests).run(sink)
                 st['result'] = 'returned'
@@ -386,7 +406,8 @@ class C13(Prop):
                 return nxt
             self._sys_left = 0
         cfg = self.gen_config(rng)
-        return cfg + [self.gen_schedule(rng, cfg)]
+        hints = [h for h in (['routes', 'emptyId'] if cfg[0] == 'stream' else ['wrap', 'emptyId']) if rng.random() < 0.25]
+        return cfg + [self.gen_schedule(rng, cfg)] + ([hints] if hints else [])
 
     def enumerate(self, tier):
         tb = self.tb()
@@ -422,8 +443,8 @@ class C13(Prop):
         return isinstance(trace, list) and len(trace) == 10 and isinstance(trace[3], list) and len(trace[3]) >= 2
 
     def features(self, inp, trace):
-        flavour, workers, mk, intr, mfaults, tb, schedule = inp
-        f = ['flavour=' + flavour, 'workers=%d' % len(workers), 'tests=%s' % min(sum(len(w[0]) for w in workers), 7)]
+        flavour, workers, mk, intr, mfaults, tb, schedule = inp[:7]
+        f = ['hint:' + h for h in (inp[7] if len(inp) > 7 else [])] + ['flavour=' + flavour, 'workers=%d' % len(workers), 'tests=%s' % min(sum(len(w[0]) for w in workers), 7)]
         nat = [ev for w in workers for t in w[0] if len(t) == 3 for ev in t[2]]
         if flavour == 'stream' and any(len(t) == 3 for w in workers for t in w[0]):
             f.append('native-emitter')
@@ -483,6 +504,14 @@ class C13(Prop):
         return f
 
     def shrink(self, inp):
+        hints = inp[7] if len(inp) > 7 else []
+        for j in range(len(hints)):                      # drop a realisation hint
+            h = hints[:j] + hints[j + 1:]
+            yield inp[:7] + ([h] if h else [])
+        for cand in self.shrink7(inp[:7]):
+            yield cand + ([hints] if hints else [])
+
+    def shrink7(self, inp):
         flavour, workers, mk, intr, mfaults, tb, schedule = inp
         n = len(workers)
         for i in range(n):                       # drop a worker
